@@ -163,6 +163,19 @@ func defScanRules(c *core.Ctx, r *core.Report, ruleOf func(row string) string) (
 			}
 		}
 	}
+	// ... or run-context objects whose methods the scan is split into
+	reached := map[*ssa.Function]bool{}
+	reachesCall(scan, func(*ssa.CallCommon) bool { return false }, reached)
+	var more []*ssa.Function
+	for f := range reached {
+		if c.InScope(f) && containsGo(f) && !containsFn(parts, f) {
+			more = append(more, f)
+		}
+	}
+	sort.Slice(more, func(i, j int) bool { return more[i].Pos() < more[j].Pos() })
+	for _, f := range more {
+		parts = append(parts, core.WithAnon(f)...)
+	}
 	for _, f := range parts {
 		for _, b := range f.Blocks {
 			for _, in := range b.Instrs {
